@@ -144,7 +144,8 @@ class BaseValidator(object):
                         % (str.__name__, type(field_value).__name__, _compat.text_repr(field_value))
                     )
                 field_to_validate.validated(field_value)
-            except errors.FieldValueError as error:
+            except (errors.FieldValueError, errors.RangeValueError) as error:
+                # NOTE: Field formats building on ranges might pass on a RangeValueError.
                 error.prepend_message(
                     "cannot accept field %s" % _compat.text_repr(field_to_validate.field_name), self.location
                 )
